@@ -36,10 +36,35 @@ pub fn validate(ctx: &mut Ctx, buf: &[u8], creds: &RefCreds) -> Val {
         },
     });
     ctx.wd.leave();
-    match r {
+    let v1 = match r {
         Ok(v) => v,
         Err(p) => Val::Panic(format!("{} at {}", p.msg, p.loc)),
+    };
+    // the other decoding entry point: the verdict on a buffer does not depend on which one a caller uses
+    let r2 = guard(|| match <Message as std::convert::TryFrom<&[u8]>>::try_from(buf) {
+        Err(_) => Val::ParserRejected,
+        Ok(m) => match m.validate_integrity(&ic) {
+            Ok(IntegrityAlgorithm::Sha1) => Val::Ok(MI),
+            Ok(IntegrityAlgorithm::Sha256) => Val::Ok(MI256),
+            Err(e) => Val::Err(format!("{e:?}")),
+        },
+    });
+    let v2 = match r2 {
+        Ok(v) => v,
+        Err(p) => Val::Panic(format!("{} at {}", p.msg, p.loc)),
+    };
+    if format!("{v1:?}") != format!("{v2:?}") {
+        ctx.violation(
+            "C04",
+            "verdict-independent-of-entry-point",
+            "TryFrom<&[u8]> for Message",
+            if matches!(v2, Val::Ok(_)) { "validates-only-through-try_from" } else { "" },
+            || wit(buf, creds, "entry-point"),
+            format!("the verdict through Message::from_bytes: {v1:?}"),
+            format!("{v2:?}"),
+        );
     }
+    v1
 }
 
 /// An untampered message under the key it was sealed with (or any key): consistency with the
